@@ -885,11 +885,13 @@ mod os {
             }
             posix::reset_sigpipe()?;
 
-            if let Some(uid) = setuid {
-                posix::setuid(uid)?;
-            }
+            // Change the group first: after dropping the user ID we may no
+            // longer have the privilege to change the group ID.
             if let Some(gid) = setgid {
                 posix::setgid(gid)?;
+            }
+            if let Some(uid) = setuid {
+                posix::setuid(uid)?;
             }
             if setpgid {
                 posix::setpgid(0, 0)?;
